@@ -56,3 +56,228 @@ Proof. vm_compute. auto. Qed.
 Example quote_nonvacuous :
   parse_quoted_string (cquote [97; 9; 200; 34; 92; 10; 1]%N ++ bs " tail") = Ok ([97; 9; 200; 34; 92; 10; 1]%N, 34%N :: bs " tail").
 Proof. vm_compute. reflexivity. Qed.
+
+(* ===== merged from Properties_WholeNames.v ===== *)
+From PatchV Require Import Base Lines Hunk Locator Formatter Options Applier LineParser Parser World Driver
+     Spec_Locate Spec_Apply Spec_Names Proofs_Base Proofs_Lines Proofs_Unified Proofs_Filler
+     Proofs_Names Proofs_Conf Proofs_World Proofs_EndToEnd Proofs_Reverse Proofs_Sections Proofs_Sections_Unified
+     Proofs_Whole Proofs_WholeGit Proofs_WholeNames.
+
+(* (1a) the header scan, both names C-quoted: any bytes, read back exactly, then stripped *)
+Theorem unified_header_scan_quoted : forall strip f fl oldname tail1 newname tail2 h1 hs tail,
+  f = FUnknown \/ f = FUnified ->
+  Forall (Filler strip (empty_patch f)) fl -> Forall clean fl ->
+  bytes oldname -> bytes newname -> clean tail1 -> clean tail2 ->
+  Forall wf_hunk (h1 :: hs) ->
+  parse_patch_header_full (empty_patch f) strip
+    (strm (join_lines (fl ++ [bs "--- " ++ cquote oldname ++ tail1; bs "+++ " ++ cquote newname ++ tail2]) ++
+           emit_hunks (h1 :: hs) ++ tail)) =
+  Ok (true,
+      mkPatch FUnified (decide_oper h1 (stripped oldname strip) (stripped newname strip)) [] []
+              (stripped oldname strip) (stripped newname strip) (opt_or (qtime tail1) []) (opt_or (qtime tail2) []) 0 0 [],
+      strm (emit_hunks (h1 :: hs) ++ tail), true).
+Proof. exact Proofs_WholeNames.unified_header_scan_quoted. Qed.
+Print Assumptions unified_header_scan_quoted.
+
+(* (1b) names with blanks, ended by a TAB *)
+Theorem unified_header_scan_blanks : forall strip f fl oldname t1 newname t2 h1 hs tail,
+  f = FUnknown \/ f = FUnified ->
+  Forall (Filler strip (empty_patch f)) fl -> Forall clean fl ->
+  blank_name oldname -> blank_name newname -> clean (oldname ++ 9%N :: t1) -> clean (newname ++ 9%N :: t2) ->
+  Forall wf_hunk (h1 :: hs) ->
+  parse_patch_header_full (empty_patch f) strip
+    (strm (join_lines (fl ++ [bs "--- " ++ oldname ++ 9%N :: t1; bs "+++ " ++ newname ++ 9%N :: t2]) ++
+           emit_hunks (h1 :: hs) ++ tail)) =
+  Ok (true,
+      mkPatch FUnified (decide_oper h1 (stripped oldname strip) (stripped newname strip)) [] []
+              (stripped oldname strip) (stripped newname strip) t1 t2 0 0 [],
+      strm (emit_hunks (h1 :: hs) ++ tail), true).
+Proof. exact Proofs_WholeNames.unified_header_scan_blanks. Qed.
+Print Assumptions unified_header_scan_blanks.
+
+(* what -pN makes of DIR/NAME *)
+Theorem stripped_dir : forall d name k,
+  d <> [] -> ~ In 47%N d -> hd 0%N name <> 47%N -> (0 <= k)%Z ->
+  stripped (d ++ 47%N :: name) (k + 1) = strip_spec name (Z.to_nat k).
+Proof. exact Proofs_WholeNames.stripped_dir. Qed.
+Print Assumptions stripped_dir.
+
+(* (2a) git header, plain names with directories, any -p *)
+Theorem git_header_scan_names : forall strip f fl name ix h1 hs tail,
+  Forall (Filler strip (empty_patch f)) fl -> Forall clean fl ->
+  name <> [] -> ~ In 9%N name -> ~ In 32%N name -> clean name -> clean (bs "index " ++ ix) ->
+  Forall wf_hunk (h1 :: hs) ->
+  parse_patch_header_full (empty_patch f) strip
+    (strm (join_lines (fl ++ git_lines name ix) ++ emit_hunks (h1 :: hs) ++ tail)) =
+  Ok (true,
+      mkPatch FGit (decide_oper h1 (stripped (bs "a/" ++ name) strip) (stripped (bs "b/" ++ name) strip)) [] []
+              (stripped (bs "a/" ++ name) strip) (stripped (bs "b/" ++ name) strip) [] [] 0 0 [],
+      strm (emit_hunks (h1 :: hs) ++ tail), true).
+Proof. exact Proofs_WholeNames.git_header_scan_names. Qed.
+Print Assumptions git_header_scan_names.
+
+Theorem git_header_scan_pN : forall k f fl name ix h1 hs tail,
+  (0 <= k)%Z ->
+  Forall (Filler (k + 1) (empty_patch f)) fl -> Forall clean fl ->
+  name <> [] -> hd 0%N name <> 47%N -> ~ In 9%N name -> ~ In 32%N name -> clean name -> clean (bs "index " ++ ix) ->
+  Forall wf_hunk (h1 :: hs) ->
+  parse_patch_header_full (empty_patch f) (k + 1)
+    (strm (join_lines (fl ++ git_lines name ix) ++ emit_hunks (h1 :: hs) ++ tail)) =
+  Ok (true,
+      mkPatch FGit (decide_oper h1 (strip_spec name (Z.to_nat k)) (strip_spec name (Z.to_nat k))) [] []
+              (strip_spec name (Z.to_nat k)) (strip_spec name (Z.to_nat k)) [] [] 0 0 [],
+      strm (emit_hunks (h1 :: hs) ++ tail), true).
+Proof. exact Proofs_WholeNames.git_header_scan_pN. Qed.
+Print Assumptions git_header_scan_pN.
+
+Theorem stripped_ab_zero : forall d name, stripped (d :: 47%N :: name) 0 = d :: 47%N :: name.
+Proof. exact Proofs_WholeNames.stripped_ab_zero. Qed.
+Print Assumptions stripped_ab_zero.
+Theorem stripped_ab_default : forall d name strip, d <> 47%N -> (strip < 0)%Z ->
+  stripped (d :: 47%N :: name) strip = basename name /\ is_basename name (basename name).
+Proof. exact Proofs_WholeNames.stripped_ab_default. Qed.
+Print Assumptions stripped_ab_default.
+
+Theorem git_header_scan_quoted : forall strip f fl name ix h1 hs tail,
+  Forall (Filler strip (empty_patch f)) fl -> Forall clean fl ->
+  bytes name -> clean (bs "index " ++ ix) ->
+  Forall wf_hunk (h1 :: hs) ->
+  parse_patch_header_full (empty_patch f) strip
+    (strm (join_lines (fl ++ [bs "diff --git " ++ cquote (bs "a/" ++ name) ++ bs " " ++ cquote (bs "b/" ++ name); bs "index " ++ ix;
+                              bs "--- " ++ cquote (bs "a/" ++ name) ++ []; bs "+++ " ++ cquote (bs "b/" ++ name) ++ []]) ++
+           emit_hunks (h1 :: hs) ++ tail)) =
+  Ok (true,
+      mkPatch FGit (decide_oper h1 (stripped (bs "a/" ++ name) strip) (stripped (bs "b/" ++ name) strip)) [] []
+              (stripped (bs "a/" ++ name) strip) (stripped (bs "b/" ++ name) strip) [] [] 0 0 [],
+      strm (emit_hunks (h1 :: hs) ++ tail), true).
+Proof. exact Proofs_WholeNames.git_header_scan_quoted. Qed.
+Print Assumptions git_header_scan_quoted.
+
+(* (2b) a pure rename *)
+Theorem ext_name_spec : forall strip prefix name,
+  ((1 <= strip)%Z -> ext_name strip prefix name = strip_spec name (Z.to_nat (strip - 1))) /\
+  (strip = 0%Z -> ext_name strip prefix name = prefix ++ strip_spec name 0) /\
+  ((strip < 0)%Z -> is_basename name (ext_name strip prefix name)).
+Proof. exact Proofs_WholeNames.ext_name_spec. Qed.
+Print Assumptions ext_name_spec.
+
+Theorem git_rename_plain : forall strip f fl oldn newn sim,
+  Forall (Filler strip (empty_patch f)) fl -> Forall clean fl ->
+  hd 0%N oldn <> 34%N -> hd 0%N newn <> 34%N -> clean oldn -> clean newn -> clean sim ->
+  parse_patch_header_full (empty_patch f) strip
+    (strm (join_lines (fl ++ rename_lines ((bs "a/" ++ oldn) ++ bs " b/" ++ newn) sim oldn newn))) =
+  Ok (true, renamed FGit (ext_name strip (bs "a/") oldn) (ext_name strip (bs "b/") newn), strm [], true).
+Proof. exact Proofs_WholeNames.git_rename_plain. Qed.
+Print Assumptions git_rename_plain.
+
+Theorem git_rename_quoted : forall strip f fl oldn newn sim,
+  Forall (Filler strip (empty_patch f)) fl -> Forall clean fl ->
+  bytes oldn -> bytes newn -> clean sim ->
+  parse_patch_header_full (empty_patch f) strip
+    (strm (join_lines (fl ++ rename_lines (cquote (bs "a/" ++ oldn) ++ bs " " ++ cquote (bs "b/" ++ newn)) sim (cquote oldn) (cquote newn)))) =
+  Ok (true, renamed FGit (ext_name strip (bs "a/") oldn) (ext_name strip (bs "b/") newn), strm [], true).
+Proof. exact Proofs_WholeNames.git_rename_quoted. Qed.
+Print Assumptions git_rename_quoted.
+
+Theorem git_rename_scan_next : forall strip f fl g gn sim rfrom oldn rto newn g2 more,
+  Forall (Filler strip (empty_patch f)) fl -> Forall clean fl ->
+  parse_git_header_name strip g = Ok gn ->
+  git_ext_filename strip (bs "a/") rfrom = Ok oldn -> git_ext_filename strip (bs "b/") rto = Ok newn ->
+  clean (bs "diff --git " ++ g) -> clean (bs "similarity index " ++ sim) -> clean (bs "rename from " ++ rfrom) -> clean (bs "rename to " ++ rto) ->
+  clean (bs "diff --git " ++ g2) ->
+  parse_patch_header_full (empty_patch f) strip
+    (strm (join_lines (fl ++ rename_lines g sim rfrom rto) ++ (bs "diff --git " ++ g2) ++ 10%N :: more)) =
+  Ok (false, renamed FGit oldn newn, strm ((bs "diff --git " ++ g2) ++ 10%N :: more), true).
+Proof. exact Proofs_WholeNames.git_rename_scan_next. Qed.
+Print Assumptions git_rename_scan_next.
+
+(* (3) the file named -- and no other -- is patched *)
+Theorem right_file_patched : forall o f0 fl oldname tail1 newname tail2 h1 hs tail fname A B w data mode,
+  plain_options o -> reverse_patch_opt o = false ->
+  format_from_options o = Ok f0 -> f0 = FUnknown \/ f0 = FUnified ->
+  Forall (Filler (strip_size o) (empty_patch f0)) fl -> Forall clean fl ->
+  bytes oldname -> bytes newname -> clean tail1 -> clean tail2 ->
+  stripped oldname (strip_size o) = fname -> stripped newname (strip_size o) = fname ->
+  fname <> [] /\ ~ In 47%N fname ->
+  Forall wf_hunk (h1 :: hs) -> Conforming A B (h1 :: hs) ->
+  remove_empty_files o <> OBYes \/ lines_bytes (newline_output o) B <> [] ->
+  (Z.of_nat (length A) < MAXZ)%Z ->
+  tail_ok tail -> ends_here o f0 (after tail) = true ->
+  fault w = None -> lookup (fs w) fname = Some (Reg data mode) -> (mode < 4096)%N -> owner_r mode = true -> owner_w mode = true ->
+  split_lines data = A ->
+  exists w',
+    process_patch o (join_lines (fl ++ [bs "--- " ++ cquote oldname ++ tail1; bs "+++ " ++ cquote newname ++ tail2]) ++
+                     emit_hunks (h1 :: hs) ++ tail) w = (Ok (0, []), w') /\
+    lookup (fs w') fname = Some (Reg (lines_bytes (newline_output o) B) mode) /\
+    (forall q, q <> fname -> lookup (fs w') q = lookup (fs w) q) /\
+    fault w' = None /\ umask w' = umask w.
+Proof. exact Proofs_WholeNames.right_file_patched. Qed.
+Print Assumptions right_file_patched.
+
+Theorem right_file_patched_p1 : forall o f0 fl da db tail1 tail2 h1 hs tail fname A B w data mode,
+  plain_options o -> reverse_patch_opt o = false -> strip_size o = 1%Z ->
+  format_from_options o = Ok f0 -> f0 = FUnknown \/ f0 = FUnified ->
+  Forall (Filler 1 (empty_patch f0)) fl -> Forall clean fl ->
+  da <> [] -> ~ In 47%N da -> bytes da -> db <> [] -> ~ In 47%N db -> bytes db ->
+  fname <> [] -> ~ In 47%N fname -> bytes fname ->
+  clean tail1 -> clean tail2 ->
+  Forall wf_hunk (h1 :: hs) -> Conforming A B (h1 :: hs) ->
+  remove_empty_files o <> OBYes \/ lines_bytes (newline_output o) B <> [] ->
+  (Z.of_nat (length A) < MAXZ)%Z ->
+  tail_ok tail -> ends_here o f0 (after tail) = true ->
+  fault w = None -> lookup (fs w) fname = Some (Reg data mode) -> (mode < 4096)%N -> owner_r mode = true -> owner_w mode = true ->
+  split_lines data = A ->
+  exists w',
+    process_patch o (join_lines (fl ++ [bs "--- " ++ cquote (da ++ 47%N :: fname) ++ tail1;
+                                        bs "+++ " ++ cquote (db ++ 47%N :: fname) ++ tail2]) ++
+                     emit_hunks (h1 :: hs) ++ tail) w = (Ok (0, []), w') /\
+    lookup (fs w') fname = Some (Reg (lines_bytes (newline_output o) B) mode) /\
+    (forall q, q <> fname -> lookup (fs w') q = lookup (fs w) q) /\
+    fault w' = None /\ umask w' = umask w.
+Proof. exact Proofs_WholeNames.right_file_patched_p1. Qed.
+Print Assumptions right_file_patched_p1.
+
+Theorem right_file_patched_blanks : forall o f0 fl oldname t1 newname t2 h1 hs tail fname A B w data mode,
+  plain_options o -> reverse_patch_opt o = false ->
+  format_from_options o = Ok f0 -> f0 = FUnknown \/ f0 = FUnified ->
+  Forall (Filler (strip_size o) (empty_patch f0)) fl -> Forall clean fl ->
+  blank_name oldname -> blank_name newname -> clean (oldname ++ 9%N :: t1) -> clean (newname ++ 9%N :: t2) ->
+  stripped oldname (strip_size o) = fname -> stripped newname (strip_size o) = fname ->
+  fname <> [] /\ ~ In 47%N fname ->
+  Forall wf_hunk (h1 :: hs) -> Conforming A B (h1 :: hs) ->
+  remove_empty_files o <> OBYes \/ lines_bytes (newline_output o) B <> [] ->
+  (Z.of_nat (length A) < MAXZ)%Z ->
+  tail_ok tail -> ends_here o f0 (after tail) = true ->
+  fault w = None -> lookup (fs w) fname = Some (Reg data mode) -> (mode < 4096)%N -> owner_r mode = true -> owner_w mode = true ->
+  split_lines data = A ->
+  exists w',
+    process_patch o (join_lines (fl ++ [bs "--- " ++ oldname ++ 9%N :: t1; bs "+++ " ++ newname ++ 9%N :: t2]) ++
+                     emit_hunks (h1 :: hs) ++ tail) w = (Ok (0, []), w') /\
+    lookup (fs w') fname = Some (Reg (lines_bytes (newline_output o) B) mode) /\
+    (forall q, q <> fname -> lookup (fs w') q = lookup (fs w) q) /\
+    fault w' = None /\ umask w' = umask w.
+Proof. exact Proofs_WholeNames.right_file_patched_blanks. Qed.
+Print Assumptions right_file_patched_blanks.
+
+Theorem right_file_patched_git : forall o f0 fl name ix h1 hs tail fname A B w data mode,
+  plain_options o -> reverse_patch_opt o = false -> format_from_options o = Ok f0 ->
+  Forall (Filler (strip_size o) (empty_patch f0)) fl -> Forall clean fl ->
+  bytes name -> clean (bs "index " ++ ix) ->
+  stripped (bs "a/" ++ name) (strip_size o) = fname -> stripped (bs "b/" ++ name) (strip_size o) = fname ->
+  fname <> [] /\ ~ In 47%N fname ->
+  Forall wf_hunk (h1 :: hs) -> Conforming A B (h1 :: hs) ->
+  rstart (oldr h1) <> 0%Z /\ rstart (newr h1) <> 0%Z ->
+  remove_empty_files o <> OBYes \/ lines_bytes (newline_output o) B <> [] ->
+  (Z.of_nat (length A) < MAXZ)%Z ->
+  tail_ok tail -> ends_here o f0 (after tail) = true ->
+  fault w = None -> lookup (fs w) fname = Some (Reg data mode) -> (mode < 4096)%N -> owner_r mode = true -> owner_w mode = true ->
+  split_lines data = A ->
+  exists w',
+    process_patch o (join_lines (fl ++ [bs "diff --git " ++ cquote (bs "a/" ++ name) ++ bs " " ++ cquote (bs "b/" ++ name); bs "index " ++ ix;
+                                        bs "--- " ++ cquote (bs "a/" ++ name) ++ []; bs "+++ " ++ cquote (bs "b/" ++ name) ++ []]) ++
+                     emit_hunks (h1 :: hs) ++ tail) w = (Ok (0, []), w') /\
+    lookup (fs w') fname = Some (Reg (lines_bytes (newline_output o) B) mode) /\
+    (forall q, q <> fname -> lookup (fs w') q = lookup (fs w) q) /\
+    fault w' = None /\ umask w' = umask w.
+Proof. exact Proofs_WholeNames.right_file_patched_git. Qed.
+Print Assumptions right_file_patched_git.
